@@ -95,7 +95,7 @@ func drawPlan(t *rapid.T) *plan {
 	}
 	ns := rapid.IntRange(0, 6).Draw(t, "nstim")
 	for i := 0; i < ns; i++ {
-		p.Stims = append(p.Stims, call{M: rapid.SampledFrom([]string{"input", "input", "resize", "quietresize", "pause"}).Draw(t, "stim"), A: rapid.IntRange(1, 10).Draw(t, "sa"), B: rapid.IntRange(1, 5).Draw(t, "sb")})
+		p.Stims = append(p.Stims, call{M: rapid.SampledFrom([]string{"input", "input", "resize", "quietresize", "pause", "writefault"}).Draw(t, "stim"), A: rapid.IntRange(1, 10).Draw(t, "sa"), B: rapid.IntRange(1, 5).Draw(t, "sb")})
 	}
 	p.Fini = rapid.IntRange(-2, na-1).Draw(t, "fini")
 	return p
@@ -346,7 +346,12 @@ func runRace(t *rapid.T) {
 		w.s, w.scr, w.tty = world.S, world.Scr, world.Tty
 		w.T = vt.New(p.Cfg.W, p.Cfg.H, nil)
 		w.T.Lenient = true
+		w.tty.OnFault = func(kind string) { w.T.AbortSequence() }
 		w.tty.OnWrite = func(g string, b []byte) {
+			if u := w.tty.LastUnsent; len(u) >= 4 && len(b) > len(u) && string(b[:len(u)]) == string(u) {
+				w.failf("C10/torn-show", "the %d bytes a failed tty write did not accept were sent again in front of the next frame (written by %s): a Show reaches the terminal as its own block, or not at all", len(u), g)
+			}
+			w.tty.LastUnsent = nil
 			if !w.T.InGround() && w.lastW != g {
 				w.failf("C10/torn-show", "bytes written by %s arrive inside an unfinished control sequence written by %s: the output stream is interleaved", g, w.lastW)
 			}
@@ -414,6 +419,15 @@ func runRace(t *rapid.T) {
 					} else {
 						w.tty.Resize(st.A, st.B)
 						w.tty.FireResize()
+					}
+				case "writefault":
+					// the next frame is cut short by the tty (or fails outright)
+					if w.sim == nil {
+						if st.B%2 == 0 {
+							w.tty.FailWrites = 1
+						} else {
+							w.tty.ShortWrite = st.A
+						}
 					}
 				case "quietresize":
 					// the window changes size without a signal: the next Show/Sync picks it up
